@@ -35,14 +35,38 @@ def alphabet():
                 ops.append('mk.dom\t0\t%s\t%s\t-\t%s' % (name, ln, dt))
     # the complement of the NEXT automatic name (prefix d, ID 1) declared explicitly, with either length
     ops += ['mk.dom\t0\td1*\t5\t-\t-', 'mk.dom\t0\td1*\t9\t-\t-', 'mk.dom\t0\td1\t-\t-\tlong']
+    # keywords passed explicitly as None (what a forwarding wrapper does): the same requests as with the keyword omitted
+    ops += ['mk.dom\t0\ta*\tN\t-\tN', 'mk.dom\t0\ta\tN\t-\t-', 'mk.dom\t0\ta*\tN\t-\tshort']
     ops += ['inv\th0', 'inv\th1', 'drop\th0', 'drop\th1']
     return ops
+
+
+def model_line(l):
+    """the model does not distinguish an omitted keyword from an explicit None"""
+    f = l.split('\t')
+    if f[0] == 'mk.dom':
+        f = [('-' if x == 'N' else x) for x in f]
+    return '\t'.join(f)
+
+
+def dtype_all(iw, res, hl):
+    """every live domain reports the dtype its length has under the CURRENT class cut-off"""
+    for h, o in list(iw.held.items()):
+        if type(o) in iw.classes['dom'] and o.length is not None:
+            want = 'short' if o.length <= type(o).DTYPE_CUTOFF else 'long'
+            try:
+                got = o.dtype
+            except Exception as e:
+                got = 'raises ' + type(e).__name__; e = None
+            if got != want:
+                res.violation('dtype-rule:live-domain', {'history': list(hl)}, 'h%d %r has dtype %r (length %r, cut-off %d)' % (h, o, got, o.length, type(o).DTYPE_CUTOFF), want)
+                return
 
 
 def oracle_after(iw, line, out, res, hist_lines):
     """independent statement of the dtype / complement rules on the object just returned"""
     if not out.startswith('ret h'):
-        f = line.split('\t')
+        f = model_line(line).split('\t')
         if f[0] == 'mk.dom' and f[3] != '-' and f[5] != '-':
             cut = iw.classes['dom'][int(f[1])].DTYPE_CUTOFF
             contradictory = (f[5] == 'short') != (int(f[3]) <= cut)
@@ -51,7 +75,7 @@ def oracle_after(iw, line, out, res, hist_lines):
         return
     o = iw.held[int(out.split(' ')[1][1:])]
     cls = type(o)
-    f = line.split('\t')
+    f = model_line(line).split('\t')
     if o.length is not None:
         want = 'short' if o.length <= cls.DTYPE_CUTOFF else 'long'
         if o.dtype != want:
@@ -89,12 +113,17 @@ def run(res, proof):
         hl = list(pre)
         ho = hist.run_checked(iw, pre, res, 'C04', check_domains=True)
         for l in combo:
+            if l.startswith('cfg.dom'):
+                hl.append(l); ho.append(iw.do(l))
+                dtype_all(iw, res, hl)
+                continue
             if not handles_ok(l, iw.held):
                 return
             o = hist.run_checked(iw, [l], res, 'C04', check_domains=True, prefix=hl)[0]
             hl.append(l); ho.append(o)
             hl.append('names'); ho.append(iw.do('names'))
             oracle_after(iw, l, o, res, hl)      # may create complements: mirror that in the history
+            dtype_all(iw, res, hl)
             bad = hist.domain_lengths_agree(iw)
             if bad:
                 res.violation('complement-length-mismatch', {'history': list(hl)}, bad, 'a domain and its complement have equal length')
@@ -121,19 +150,29 @@ def run(res, proof):
         for d in range(1, depth + 1):
             for combo in itertools.product(ops, repeat=d):
                 run_one(cfg, combo)
+    # class settings changed while domains are alive: op, new settings, op
+    for cfg in CFGS:
+        for cfg2 in CFGS:
+            if cfg2 == cfg:
+                continue
+            for a in ops:
+                for b in (ops if not quick else rng.sample(ops, 8)):
+                    run_one(cfg, [a, 'cfg.dom\t0\t%d\t%d\t%d' % cfg2, b])
     for _ in range(2500 if quick else 40000):
         cfg = rng.choice(CFGS)
         combo = [rng.choice(ops) for _ in range(rng.randint(3, 6))]
+        if rng.random() < 0.3:
+            combo.insert(rng.randrange(1, len(combo)), 'cfg.dom\t0\t%d\t%d\t%d' % rng.choice(CFGS))
         run_one(cfg, combo)
     iw.reset()
     res.dist['histories'] = n_hist
-    res.rule = ('exhaustive histories of depth <= %d over 34 ops (names a / a* / automatic x lengths 5 / 9 / none x dtype none / short / '
+    res.rule = ('exhaustive histories of depth <= %d over 37 ops (incl. keywords passed explicitly as None), histories that change the class settings between two requests, (names a / a* / automatic x lengths 5 / 9 / none x dtype none / short / '
                 'long, complement of the first two handles, drops) x 3 class-setting variants, plus seeded random histories of length '
                 '3-6; after every successful request the complement is taken and dropped again; non-trivial = at least one refused '
                 'request; distinct by (settings, op sequence)' % depth)
     res.exhaustive = True
     try:
-        model = core.run_driver(lines)
+        model = core.run_driver([model_line(l) for l in lines])
         core.compare_streams(res, 'histories.domains', lines, impl, model)
         if res.disagreements:
             fix_disagreements(res, lines, impl, model)
